@@ -5,6 +5,8 @@ slots/replace   for every class, each child slot that the real get_sql renders (
                 `new_table` under `== current_table`.
 slots/callee    every receiver of a nested replace_table call has that method (a Table / Cte does not: the dynamic
                 attribute lookup turns the call into Field(...)(), a TypeError).
+slots/eq-bool   every concrete row-source class (Selectable) resolves __eq__ to a bool-valued function: replace_table
+                decides with `source == current_table`.
 slots/frame     the receiver is left untouched and the result is a new object (the C01 frame obligations of the
                 replace_table builders).
 Lemma (paper, structural induction): rendering of x.replace_table(o, n) equals the rendering of the same
@@ -296,6 +298,71 @@ def check_class(cq):
     return obs
 
 
+def _bool_valued(ci, node, depth=0):
+    """syntactic judgement: the expression evaluates to a bool (used on the return expressions of __eq__)"""
+    import ast
+    from contracts.invariants import SLOTS
+    if isinstance(node, ast.Constant):
+        return isinstance(node.value, bool)
+    if isinstance(node, ast.UnaryOp) and isinstance(node.op, ast.Not):
+        return True
+    if isinstance(node, ast.BoolOp):
+        return all(_bool_valued(ci, v, depth) for v in node.values)
+    if isinstance(node, ast.Call):
+        f = node.func
+        if isinstance(f, ast.Name) and f.id in ("isinstance", "bool", "all", "any", "hasattr", "issubclass"):
+            return True
+        if isinstance(f, ast.Attribute) and f.attr in ("__eq__", "__ne__") and isinstance(f.value, ast.Name) \
+                and f.value.id == "self" and depth < 3:
+            res = ci.resolve(f.attr)
+            return bool(res and res[0] == "func" and _eq_returns_bool(ci, res[1], depth + 1))
+        return False
+    if isinstance(node, ast.Compare):
+        if all(isinstance(op, (ast.Is, ast.IsNot, ast.In, ast.NotIn)) for op in node.ops):
+            return True
+        # == / != of attributes: bool unless an operand is declared to hold a Node (whose == builds a criterion)
+        for side in [node.left] + list(node.comparators):
+            if isinstance(side, ast.Attribute):
+                for k in ci.mro:
+                    spec = SLOTS.get(k.short, {}).get(side.attr)
+                    if spec and any(w in spec for w in ("Node", "Term", "Field", "Criterion")):
+                        return False
+            elif not isinstance(side, (ast.Constant, ast.Name)):
+                return False
+        return True
+    return False
+
+
+def _eq_returns_bool(ci, fi, depth=0):
+    import ast
+    rets = [n for n in ast.walk(fi.node) if isinstance(n, ast.Return)]
+    return bool(rets) and all(n.value is not None and _bool_valued(ci, n.value, depth) for n in rets)
+
+
+def check_eq_bool():
+    """slots/eq-bool: replace_table decides `source == current_table` for FROM / JOIN / INSERT / UPDATE sources; every
+    concrete row-source class must resolve __eq__ to a bool-valued function of the package (Term.__eq__ builds an
+    always-truthy criterion: every such source would be taken for the table to replace)"""
+    r = repo()
+    obs = []
+    for ci in sorted(r.subclasses(r.cls("queries.Selectable")), key=lambda c: c.qual):
+        res = ci.resolve("__eq__")
+        if not res or res[0] != "func":
+            ok, why = True, "object.__eq__ (identity, bool)"
+        else:
+            ok = _eq_returns_bool(ci, res[1])
+            why = f"{res[1].short} " + ("returns bool on every path" if ok else
+                                        "does not return a bool on every path (it builds a criterion, which is truthy)")
+        obs.append(Obligation(PROP, f"{ci.short}|slots/eq-bool", "slots/eq-bool", (res[1].short if res and res[0] == "func"
+                                                                                  else ci.short + ".__eq__"),
+                              PROVED if ok else REFUTED, backend="syntactic",
+                              detail=f"{ci.name} may stand where replace_table tests `== current_table`: {why}",
+                              reason="" if ok else f"{ci.name} == <any table> is truthy: replace_table(x, new) replaces this "
+                                                   f"source by `new` whatever x is",
+                              witness={"family": "call", "oracle": "rowsource_eq", "args": [ci.short]}))
+    return obs
+
+
 def generate(tier="quick"):
     r = repo()
     items, seen = [], set()
@@ -312,8 +379,10 @@ def generate(tier="quick"):
                 continue
             seen.add(sig)
             items.append(ci.qual)
-    obs = parallel(check_class, items)
+    obs = parallel(check_class, items) + check_eq_bool()
     return obs, {"functions": sorted({i + ".replace_table" for i in items}), "closed_world": items,
                  "assumptions": ["lemma (paper): slot-wise replacement is a homomorphism, so the rendering of "
                                  "x.replace_table(o, n) equals the rendering of the construction with n for o",
-                                 "tables are compared with Table.__eq__ (coherence: C17)"]}
+                                 "tables are compared with Table.__eq__ (coherence: C17); that every row-source class has a "
+                                 "bool-valued __eq__ is obligation slots/eq-bool (syntactic judgement on the return "
+                                 "expressions of the resolved __eq__)"]}
